@@ -62,7 +62,7 @@ def pre_ok(scn, g0, g1, p0, thorough):
     """domain of the selector arguments per scenario (smaller pools in the quick tier: ~1 path/s)"""
     if scn == 0:
         if thorough:
-            return len(g0) <= 2 and len(g1) <= 1 and all(0 <= g < len(GEN) for g in g0 + g1)
+            return len(g0) <= 1 and len(g1) <= 1 and all(0 <= g < len(GEN) for g in g0) and all(0 <= g < 4 for g in g1)
         return len(g0) <= 1 and not g1 and all(0 <= g < len(GEN) for g in g0) and not p0
     if scn == 1:
         if thorough:
@@ -70,14 +70,14 @@ def pre_ok(scn, g0, g1, p0, thorough):
         return len(g0) <= 1 and not g1 and all(0 <= g < 2 for g in g0) and not p0
     if scn == 2:
         if thorough:
-            return len(g0) <= 2 and len(g1) <= 2 and all(0 <= g < len(DTAGS) for g in g0 + g1)
+            return len(g0) <= 1 and len(g1) <= 1 and all(0 <= g < len(DTAGS) for g in g0 + g1)
         return len(g0) <= 1 and len(g1) <= 1 and all(0 <= g < 5 for g in g0 + g1) and not p0
     if scn == 3:
         if thorough:
-            return len(g0) <= 1 and len(g1) <= 2 and all(0 <= g < 3 for g in g0) and all(0 <= g < len(REFS) for g in g1)
+            return not g0 and len(g1) <= 2 and all(0 <= g < len(REFS) for g in g1)
         return not g0 and len(g1) <= 1 and all(0 <= g < len(REFS) for g in g1)
     if thorough:
-        return len(g0) <= 1 and len(g1) <= 1 and all(0 <= g < len(GEN) for g in g0 + g1)
+        return len(g0) <= 1 and len(g1) <= 1 and all(0 <= g < len(GEN) for g in g0) and all(0 <= g < 4 for g in g1)
     return len(g0) <= 1 and not g1 and all(0 <= g < 3 for g in g0) and not p0
 
 
